@@ -46,6 +46,13 @@ fn main() {
             let out = PathBuf::from(&args[7]);
             std::process::exit(worker_main(p, tier_of(&args[3]), seed, shard, n, cfg!(feature = "smallbuf"), &out));
         }
+        "corpus" => {
+            if args.len() < 4 {
+                usage();
+            }
+            let n = mhv::fuzzrt::write_corpus(&args[2], &PathBuf::from(&args[3]));
+            println!("{} files", n);
+        }
         "replay" => {
             if args.len() < 3 {
                 usage();
